@@ -504,7 +504,7 @@ func (fid *SrvFid) DecRef() {
 	n := fid.refcount
 	fid.Unlock()
 
-	if n > 0 {
+	if n != 0 {
 		return
 	}
 
